@@ -30,3 +30,12 @@ try:
     _iu(1.0, "degrees", "radians")
 except Exception:   # pragma: no cover
     pass
+
+
+def conc(x, lo=0, hi=12):
+    """Concretise a small symbolic int by explicit binary branching (x == v); unlike crosshair.realize this
+    gives decision nodes that CrossHair can exhaust.  Values outside [lo, hi] raise (harness bound error)."""
+    for v in range(lo, hi + 1):
+        if x == v:
+            return v
+    raise AssertionError("conc: value outside the harness range")
